@@ -102,13 +102,13 @@ func selfTest(verif, repo, prop string) any {
 		}
 	}
 	return map[string]any{
-		"seeded":        len(jobs),
-		"detected":      det,
-		"missed":        missed,
-		"stale":         stale,
-		"false_alarms":  falseAlarms,
-		"results":       results,
-		"note":          "each patch is applied to a scratch copy of the repository's current working tree and the rules are re-run on the copy; 'detected' = the named rule reported the seeded construct; negative controls (behaviour-preserving rewrites) must stay silent",
+		"seeded":       len(jobs),
+		"detected":     det,
+		"missed":       missed,
+		"stale":        stale,
+		"false_alarms": falseAlarms,
+		"results":      results,
+		"note":         "each patch is applied to a scratch copy of the repository's current working tree and the rules are re-run on the copy; 'detected' = the named rule reported the seeded construct; negative controls (behaviour-preserving rewrites) must stay silent",
 	}
 }
 
